@@ -40,12 +40,21 @@ _TYPES = {"hem": ModelType.HEM, "merton": ModelType.MERTON, "vg": ModelType.VG, 
           "bs": ModelType.BLACKSCHOLES}
 
 
+REINIT = "__reinit__"     # marker inside a params dict: build the model, then rebuild it through `reinitialised`
+
+
 def make_levy(family, params):
-    return create_levy_model(_TYPES[family])(**params)
+    params = dict(params)
+    re_ = params.pop(REINIT, False)
+    m = create_levy_model(_TYPES[family])(**params)
+    return reinitialised(m, family, params) if re_ else m
 
 
 def make_exp(family, params, spot=100.0, r=0.02, d=0.0):
-    return create_exponential_of_levy_model(_TYPES[family])(spot=spot, r=r, d=d, **params)
+    params = dict(params)
+    re_ = params.pop(REINIT, False)
+    m = create_exponential_of_levy_model(_TYPES[family])(spot=spot, r=r, d=d, **params)
+    return reinitialised(m, family, params) if re_ else m
 
 
 def reinitialised(model, family, params):
